@@ -16,6 +16,7 @@ type hbAccess struct {
 	clock int
 	pos   string
 	fn    string
+	repo  bool
 }
 
 type hbLoc struct {
@@ -136,13 +137,15 @@ func (h *hbState) check(fr *frame, loc *hbLoc, isWrite bool, what string) {
 	if g == nil {
 		return
 	}
-	cur := &hbAccess{g: g.id, pos: fr.pos(), fn: fr.fn.String()}
+	cur := &hbAccess{g: g.id, pos: fr.pos(), fn: fr.fn.String(), repo: fr.i.ld.isRepoFn(fr.fn)}
 	if g.id < len(g.vc) {
 		cur.clock = g.vc[g.id]
 	}
 	report := func(prev *hbAccess, kind string) {
-		a, b := prev.pos, cur.pos
-		pair := []string{a, b}
+		if !prev.repo || !cur.repo {
+			return // only accesses made by repository code are the property's subject
+		}
+		pair := []string{prev.fn, cur.fn}
 		sort.Strings(pair)
 		key := "race:" + pair[0] + "|" + pair[1]
 		if h.races[key] {
